@@ -54,6 +54,14 @@ class MapFiller(Visitor):
         return circuitbuilder.build(sexpr, inject_pulses=inject_pulses)
 
     def visit_BlockStatement(self, block):
+        if block.subcircuit:
+            sexpr = [
+                "subcircuit_block",
+                block.iterations,
+                *(self.visit(stmt) for stmt in block.statements),
+            ]
+            return sexpr
+
         if block.parallel:
             block_type = "parallel_block"
         else:
